@@ -52,7 +52,7 @@ func fillerWords(r *RNG, n int) string {
 // ---------------------------------------------------------------------------
 // conventional pagers
 
-var pagerFamilies = []string{"query", "query2", "path", "path2", "suffix", "suffix2", "dated-suffix", "dated-page", "dir-html", "slash-query"}
+var pagerFamilies = []string{"query", "query2", "path", "path2", "suffix", "suffix2", "dated-suffix", "dated-page", "dir-html", "slash-query", "dated-slug"}
 
 var pagerOrigins = []string{"http://example.com", "https://example.com", "http://mirror.example.org", "https://www.example.com:8443"}
 
@@ -77,6 +77,8 @@ func famPath(fam string, i int, slash bool) string {
 		return fmt.Sprintf("/story/2014/07/alpha-%d.html", i)
 	case "dated-page":
 		return fmt.Sprintf("/story/2014/07/alpha_Page%d.html", i)
+	case "dated-slug": // no file extension: the page number ends a component under a dated directory
+		return fmt.Sprintf("/story/2014/07/alpha-page-%d", i)
 	case "dir-html": // every page in a directory of its own
 		return fmt.Sprintf("/story/%d/alpha.html", i)
 	case "slash-query": // the path ends with a slash, the page number is in the query
@@ -111,6 +113,8 @@ func famHref(origin, fam string, i int, slash bool, form string) string {
 			return fmt.Sprintf("alpha-%d.html", i)
 		case "dated-page":
 			return fmt.Sprintf("alpha_Page%d.html", i)
+		case "dated-slug":
+			return fmt.Sprintf("alpha-page-%d", i)
 		case "dir-html":
 			return fmt.Sprintf("../%d/alpha.html", i)
 		case "slash-query":
@@ -341,7 +345,7 @@ func hostileHref(r *RNG, n int, u *nurl.URL) string {
 	}
 }
 
-const nHostileFams = 30
+const nHostileFams = 31
 
 func famHostile(fam, n int, u *nurl.URL) string {
 	host := u.Host
@@ -398,6 +402,8 @@ func famHostile(fam, n int, u *nurl.URL) string {
 	// so the links lie outside the folder of the page URL
 	case 28: // an absolute link that is not fully escaped and has an escaped reserved character
 		return fmt.Sprintf("%s://%s/tag/AC%%2FDC/caf\u00e9 bar/page/%d", u.Scheme, host, n)
+	case 30: // the query of every link ends with a slash (a "back to" parameter after the page number)
+		return fmt.Sprintf("/story/alpha?page=%d&from=/news/", n)
 	case 29: // the query of the first page ends with a slash
 		return fmt.Sprintf("/search?q=news/&page=%d", n)
 	case 26:
@@ -422,6 +428,20 @@ var pagerWrapClasses = []string{"article-footer", "post-meta", "content-sidebar"
 
 // genPager produces a random pager; hostile mixes in dangerous hrefs, gaps,
 // duplicates, descending runs and calendar-like numbers.
+// brLabel: a link text of 23..27 characters in which 1..3 line break elements stand
+// between the first word and the rest (one character each when the text is read with
+// its line breaks, one blank together when white space is collapsed).
+func brLabel(r *RNG, first string) string {
+	k := 1 + r.Intn(3)
+	total := 23 + r.Intn(5)
+	rest := "page of the whole long story here"
+	n := total - len(first) - k
+	if n < 1 {
+		n = 1
+	}
+	return first + strings.Repeat("<br>", k) + strings.TrimSpace(rest[:n])
+}
+
 func genPager(r *RNG, hostile bool) *Pager {
 	pu := hostilePages[r.Intn(len(hostilePages))]
 	u := mustURL(pu)
@@ -572,7 +592,12 @@ func genPager(r *RNG, hostile bool) *Pager {
 				hp = hostileHref(r, k-1, u)
 			}
 			li := r.Intn(len(nextLabels))
-			fmt.Fprintf(&sb, `<a href="%s" class="%s">%s</a> <a href="%s" rel="prev">%s</a>`, hn, []string{"next", "btn", "nav-next pager"}[r.Intn(3)], nextLabels[li], hp, prevLabels[li])
+			nl, pl := nextLabels[li], prevLabels[li]
+			if hostile && r.Intn(4) == 0 {
+				// labels laid out over several lines, as long as link texts may be for the prev/next scorer give or take a character
+				nl, pl = brLabel(r, "next"), brLabel(r, "previous")
+			}
+			fmt.Fprintf(&sb, `<a href="%s" class="%s">%s</a> <a href="%s" rel="prev">%s</a>`, hn, []string{"next", "btn", "nav-next pager"}[r.Intn(3)], nl, hp, pl)
 		}
 		sb.WriteString(`</div>`)
 		for w := 0; w < nwrap; w++ {
